@@ -1,107 +1,200 @@
 import BfeVerif.C47.Proofs
 /-!
   C47 — WebSocket and TLS stream tunnels are byte-transparent.  Property theorems only.
-  A schedule is ANY list of steps (peer writes of any size, closes in any order, the prefix flush, io.Copy
-  iterations of any chunk size in either direction, relay terminations, serve()'s shutdown); steps that are not
-  enabled in the current state are skipped, so quantifying over all lists covers all chunkings and interleavings.
+  A schedule is ANY list of steps: peer writes of any size, closes in any order, the two prefix writes (each may fail
+  after any number of bytes), reads of any chunk size with or without an error, complete and partial/failed writes,
+  relay terminations, serve()'s shutdown; steps that are not enabled in the current state are skipped, so quantifying
+  over all lists covers all chunkings, interleavings and error placements on either side.
 -/
 namespace BfeVerif.C47
 
-/-- **C47 (safety, every reachable state)**: in both directions, what has been written to the destination followed by what is
-    still pending (unflushed prefix, then socket queue) is exactly `prefix buffered at the upgrade ++ everything
-    the source sent` — so the destination's stream is always a prefix of the source's stream: nothing lost in the
-    middle, duplicated, altered or reordered, including the bytes that arrived together with the upgrade request /
-    the 101 response. -/
+/-- reachable from a websocket upgrade with `pc` / `pb` buffered behind the request / the 101 response -/
+def reachWS (pc pb : Bytes) (sched : List Step) : St := runSched (St.init pc pb 0) sched
+/-- reachable from a TLS stream tunnel -/
+def reachTLS (sched : List Step) : St := runSched (St.init [] [] 2) sched
+
+/-- **C47 (safety, every reachable state, with errors)**: what has been written to each destination is a PREFIX of
+    `prefix buffered at the upgrade ++ everything the source sent`; the remainder is exactly: unwritten prefix,
+    then io.Copy's buffer, then the socket queue.  Nothing is altered, duplicated, reordered or lost in the middle,
+    whatever reads/writes fail or are partial. -/
 theorem C47_transparent (pc pb : Bytes) (sched : List Step) :
-    let s := runSched (St.init pc pb false) sched
-    s.c2b.out ++ s.c2b.pending s.flushed = pc ++ s.c2b.sent ∧
-    s.b2c.out ++ s.b2c.pending s.flushed = pb ++ s.b2c.sent := by
+    let s := reachWS pc pb sched
+    s.c2b.out ++ (s.c2b.preLeft ++ (s.c2b.held ++ s.c2b.inq)) = pc ++ s.c2b.sent ∧
+    s.b2c.out ++ (s.b2c.preLeft ++ (s.b2c.held ++ s.b2c.inq)) = pb ++ s.b2c.sent := by
   intro s
-  have h := run_inv sched _ (inv_init pc pb)
-  have hpre : ∀ (sched : List Step) (s0 : St), (runSched s0 sched).c2b.pre = s0.c2b.pre ∧ (runSched s0 sched).b2c.pre = s0.b2c.pre := by
+  obtain ⟨h1, h2, _⟩ := run_inv sched _ (inv_init pc pb)
+  have hp := run_pre sched (St.init pc pb 0)
+  unfold DirInv at h1 h2
+  exact ⟨h1.trans (by rw [hp.1]; rfl), h2.trans (by rw [hp.2]; rfl)⟩
+
+theorem C47_transparent_tls (sched : List Step) :
+    let s := reachTLS sched
+    s.c2b.out ++ (s.c2b.held ++ s.c2b.inq) = s.c2b.sent ∧
+    s.b2c.out ++ (s.b2c.held ++ s.b2c.inq) = s.b2c.sent := by
+  intro s
+  obtain ⟨h1, h2, h3⟩ := run_inv sched _ inv_init_tls
+  have hp := run_pre sched (St.init [] [] 2)
+  -- prefixes are empty from the start and stay empty
+  have hpl : ∀ (sched : List Step) (s0 : St), s0.c2b.preLeft = [] → s0.b2c.preLeft = [] →
+      (runSched s0 sched).c2b.preLeft = [] ∧ (runSched s0 sched).b2c.preLeft = [] := by
     intro sched
     induction sched with
-    | nil => intro s0; exact ⟨rfl, rfl⟩
-    | cons a rest ih =>
-      intro s0
+    | nil => intro s0 a b; exact ⟨a, b⟩
+    | cons st rest ih =>
+      intro s0 a b
       unfold runSched
-      cases hs : step s0 a with
-      | none => simpa using ih s0
+      cases hs : step s0 st with
+      | none => simpa using ih s0 a b
       | some s1 =>
-        have := ih s1
-        have hp : s1.c2b.pre = s0.c2b.pre ∧ s1.b2c.pre = s0.b2c.pre := by
-          cases a with
-          | send toB bs => cases toB <;> simp [step, St.get, St.set] at hs <;> obtain ⟨_, rfl⟩ := hs <;> exact ⟨rfl, rfl⟩
-          | close toB => cases toB <;> simp [step, St.get, St.set] at hs <;> obtain ⟨_, rfl⟩ := hs <;> exact ⟨rfl, rfl⟩
-          | flush => simp [step] at hs; obtain ⟨_, rfl⟩ := hs; exact ⟨rfl, rfl⟩
-          | copy toB n => cases toB <;> simp [step, St.get, St.set] at hs <;> obtain ⟨_, rfl⟩ := hs <;> exact ⟨rfl, rfl⟩
-          | eof toB => cases toB <;> simp [step, St.get, St.set] at hs <;> obtain ⟨_, rfl⟩ := hs <;> exact ⟨rfl, rfl⟩
-          | wfail toB => cases toB <;> simp [step, St.get, St.set] at hs <;> obtain ⟨_, rfl⟩ := hs <;> exact ⟨rfl, rfl⟩
-          | shutdown => simp [step] at hs; obtain ⟨_, rfl⟩ := hs; exact ⟨rfl, rfl⟩
         simp only [Option.getD_some]
-        exact ⟨this.1.trans hp.1, this.2.trans hp.2⟩
-  have hp := hpre sched (St.init pc pb false)
-  obtain ⟨h1, h2⟩ := h
+        apply ih s1
+        · cases st with
+          | send toB bs => cases toB <;> simp [step, St.get, St.set] at hs <;> obtain ⟨_, rfl⟩ := hs <;> exact a
+          | close toB => cases toB <;> simp [step, St.get, St.set] at hs <;> obtain ⟨_, rfl⟩ := hs <;> exact a
+          | flushOk => simp only [step] at hs; repeat' (first | (simp at hs; done) | (simp at hs; subst hs; first | rfl | exact a) | split at hs)
+          | flushFail k => simp only [step] at hs; repeat' (first | (simp at hs; done) | (simp at hs; subst hs; first | (simp [a]; done) | exact a) | split at hs)
+          | rd toB n => cases toB <;> simp [step, St.get, St.set] at hs <;> obtain ⟨_, rfl⟩ := hs <;> exact a
+          | rdE toB n => cases toB <;> simp [step, St.get, St.set] at hs <;> obtain ⟨_, rfl⟩ := hs <;> exact a
+          | wr toB => cases toB <;> simp [step, St.get, St.set] at hs <;> obtain ⟨_, rfl⟩ := hs <;> exact a
+          | wrFail toB k => cases toB <;> simp [step, St.get, St.set] at hs <;> obtain ⟨_, rfl⟩ := hs <;> exact a
+          | eof toB => cases toB <;> simp [step, St.get, St.set] at hs <;> obtain ⟨_, rfl⟩ := hs <;> exact a
+          | shutdown => simp [step] at hs; obtain ⟨_, rfl⟩ := hs; exact a
+        · cases st with
+          | send toB bs => cases toB <;> simp [step, St.get, St.set] at hs <;> obtain ⟨_, rfl⟩ := hs <;> exact b
+          | close toB => cases toB <;> simp [step, St.get, St.set] at hs <;> obtain ⟨_, rfl⟩ := hs <;> exact b
+          | flushOk => simp only [step] at hs; repeat' (first | (simp at hs; done) | (simp at hs; subst hs; first | rfl | exact b) | split at hs)
+          | flushFail k => simp only [step] at hs; repeat' (first | (simp at hs; done) | (simp at hs; subst hs; first | (simp [b]; done) | exact b) | split at hs)
+          | rd toB n => cases toB <;> simp [step, St.get, St.set] at hs <;> obtain ⟨_, rfl⟩ := hs <;> exact b
+          | rdE toB n => cases toB <;> simp [step, St.get, St.set] at hs <;> obtain ⟨_, rfl⟩ := hs <;> exact b
+          | wr toB => cases toB <;> simp [step, St.get, St.set] at hs <;> obtain ⟨_, rfl⟩ := hs <;> exact b
+          | wrFail toB k => cases toB <;> simp [step, St.get, St.set] at hs <;> obtain ⟨_, rfl⟩ := hs <;> exact b
+          | eof toB => cases toB <;> simp [step, St.get, St.set] at hs <;> obtain ⟨_, rfl⟩ := hs <;> exact b
+          | shutdown => simp [step] at hs; obtain ⟨_, rfl⟩ := hs; exact b
+  have hl := hpl sched (St.init [] [] 2) rfl rfl
   unfold DirInv at h1 h2
-  refine ⟨?_, ?_⟩
-  · rw [h1]; congr 1; exact hp.1
-  · rw [h2]; congr 1; exact hp.2
+  change s.c2b.out ++ (s.c2b.preLeft ++ (s.c2b.held ++ s.c2b.inq)) = s.c2b.pre ++ s.c2b.sent at h1
+  change s.b2c.out ++ (s.b2c.preLeft ++ (s.b2c.held ++ s.b2c.inq)) = s.b2c.pre ++ s.b2c.sent at h2
+  have e1 : s.c2b.pre = [] := hp.1
+  have e2 : s.b2c.pre = [] := hp.2
+  have l1 : s.c2b.preLeft = [] := hl.1
+  have l2 : s.b2c.preLeft = [] := hl.2
+  rw [e1, l1] at h1; rw [e2, l2] at h2
+  exact ⟨by simpa using h1, by simpa using h2⟩
 
-/-- the TLS stream tunnel (no bufio in front: empty prefixes, nothing to flush) -/
-theorem C47_transparent_tls (sched : List Step) :
-    let s := runSched (St.init [] [] true) sched
-    s.c2b.out ++ s.c2b.pending s.flushed = s.c2b.pre ++ s.c2b.sent ∧
-    s.b2c.out ++ s.b2c.pending s.flushed = s.b2c.pre ++ s.b2c.sent := by
+/-- the destination stream is a prefix of the source stream (corollary, in the usual notation) -/
+theorem C47_prefix (pc pb : Bytes) (sched : List Step) :
+    let s := reachWS pc pb sched
+    s.c2b.out <+: pc ++ s.c2b.sent ∧ s.b2c.out <+: pb ++ s.b2c.sent := by
   intro s
-  exact run_inv sched _ inv_init_tls
-
-/-- **C47 (completeness at rest)**: whenever the relays have nothing left to do and the tunnel is still open, each side has
-    received exactly everything the other side sent (prefix included). -/
-theorem C47_transparent_at_rest (pc pb : Bytes) (sched : List Step) :
-    let s := runSched (St.init pc pb false) sched
-    relayEnabled s = false → s.shut = false →
-    s.c2b.out = pc ++ s.c2b.sent ∧ s.b2c.out = pb ++ s.b2c.sent := by
-  intro s hq hs
-  obtain ⟨hf, hi1, hi2, _, _⟩ := rest_open s hq hs
   have h := C47_transparent pc pb sched
-  simp only [] at h
-  change s.c2b.out ++ s.c2b.pending s.flushed = pc ++ s.c2b.sent ∧ s.b2c.out ++ s.b2c.pending s.flushed = pb ++ s.b2c.sent at h
-  simpa [Dir.pending, hf, hi1, hi2] using h
+  exact ⟨⟨_, h.1⟩, ⟨_, h.2⟩⟩
 
-/-- a relay returns cleanly (EOF of its source) only after it has delivered every byte its source ever sent -/
+/-- **equal at clean EOF**: a relay can return nil (its source reached EOF) only when its destination has received
+    every byte the source ever sent, prefix included -/
 theorem C47_eof_delivers_all (pc pb : Bytes) (sched : List Step) (toB : Bool) :
-    let s := runSched (St.init pc pb false) sched
+    let s := reachWS pc pb sched
     (step s (.eof toB)).isSome →
     (s.get toB).out = (if toB then pc else pb) ++ (s.get toB).sent := by
   intro s he
   have h := C47_transparent pc pb sched
-  change s.c2b.out ++ s.c2b.pending s.flushed = pc ++ s.c2b.sent ∧ s.b2c.out ++ s.b2c.pending s.flushed = pb ++ s.b2c.sent at h
+  obtain ⟨_, _, h3⟩ := run_inv sched _ (inv_init pc pb)
+  change StageInv s at h3
+  change s.c2b.out ++ (s.c2b.preLeft ++ (s.c2b.held ++ s.c2b.inq)) = pc ++ s.c2b.sent ∧
+    s.b2c.out ++ (s.b2c.preLeft ++ (s.b2c.held ++ s.b2c.inq)) = pb ++ s.b2c.sent at h
   cases toB
-  · simp [step, St.get] at he
-    obtain ⟨hf, _, _, _, hi⟩ := he
-    simpa [St.get, Dir.pending, hf, hi] using h.2
-  · simp [step, St.get] at he
-    obtain ⟨hf, _, _, _, hi⟩ := he
-    simpa [St.get, Dir.pending, hf, hi] using h.1
+  · simp [step, St.get, St.live] at he
+    obtain ⟨⟨hst, _, _⟩, hh, _, _, hi⟩ := he
+    have hp := (h3.2.1 hst).2
+    simpa [St.get, hp, hh, hi] using h.2
+  · simp [step, St.get, St.live] at he
+    obtain ⟨⟨hst, _, _⟩, hh, _, _, hi⟩ := he
+    have hp := (h3.2.1 hst).1
+    simpa [St.get, hp, hh, hi] using h.1
 
-/-- **C47 (close propagation)**: in every state in which no relay-side step is left to take, if either peer has closed then serve()
-    has closed both connections.  (Holds for every state, hence for every schedule run to quiescence.) -/
-theorem C47_close_propagates (s : St) (hq : relayEnabled s = false)
-    (hc : s.c2b.srcClosed = true ∨ s.b2c.srcClosed = true) : s.shut = true :=
-  rest_closed s hq hc
+/-- **completeness at rest**: whenever no error-free relay step is left and the tunnel is still open, each side has
+    received exactly everything the other side sent -/
+theorem C47_transparent_at_rest (pc pb : Bytes) (sched : List Step) :
+    let s := reachWS pc pb sched
+    relayEnabled s = false → s.shut = false →
+    s.c2b.out = pc ++ s.c2b.sent ∧ s.b2c.out = pb ++ s.b2c.sent := by
+  intro s hq hs
+  obtain ⟨_, _, h3⟩ := run_inv sched _ (inv_init pc pb)
+  change StageInv s at h3
+  have hf : FlagInv s := run_flag sched _ (flag_init pc pb 0)
+  obtain ⟨hst, hi1, hi2, hh1, hh2, _, _⟩ := rest_open s h3.2.2 hf hq hs
+  have h := C47_transparent pc pb sched
+  change s.c2b.out ++ (s.c2b.preLeft ++ (s.c2b.held ++ s.c2b.inq)) = pc ++ s.c2b.sent ∧
+    s.b2c.out ++ (s.b2c.preLeft ++ (s.b2c.held ++ s.b2c.inq)) = pb ++ s.b2c.sent at h
+  have hp := h3.2.1 hst
+  simpa [hp.1, hp.2, hi1, hi2, hh1, hh2] using h
+
+/-- **the write-failure race, positive half**: a direction whose relay has caught up (queue and buffer empty, relays
+    started) has delivered everything — no matter what happened to the OTHER relay (failed write, error, returned).
+    So bytes of the healthy direction are lost only if serve()'s shutdown (250 ms after the first errCh message)
+    comes before that relay has drained what was already sent. -/
+theorem C47_idle_direction_complete (pc pb : Bytes) (sched : List Step) (toB : Bool) :
+    let s := reachWS pc pb sched
+    s.stage = 2 → (s.get toB).inq = [] → (s.get toB).held = [] →
+    (s.get toB).out = (if toB then pc else pb) ++ (s.get toB).sent := by
+  intro s hst hi hh
+  obtain ⟨_, _, h3⟩ := run_inv sched _ (inv_init pc pb)
+  change StageInv s at h3
+  have h := C47_transparent pc pb sched
+  change s.c2b.out ++ (s.c2b.preLeft ++ (s.c2b.held ++ s.c2b.inq)) = pc ++ s.c2b.sent ∧
+    s.b2c.out ++ (s.b2c.preLeft ++ (s.b2c.held ++ s.b2c.inq)) = pb ++ s.b2c.sent at h
+  have hp := h3.2.1 hst
+  cases toB
+  · simp [St.get] at hi hh ⊢; simpa [hp.2, hi, hh] using h.2
+  · simp [St.get] at hi hh ⊢; simpa [hp.1, hi, hh] using h.1
+
+/-- **the write-failure race, negative half** (what the model allows and the 250 ms grace period is for): the backend
+    relay's write to the client fails while the client's bytes 1 2 3 are still in the socket queue; serve() shuts
+    down before the client→backend relay runs; the live backend never sees them.  Safety still holds (prefix). -/
+theorem C47_witness_race_drops_suffix :
+    let s := reachWS [] [] [.flushOk, .flushOk, .send true [1, 2, 3], .send false [9], .rd false 1, .wrFail false 0, .shutdown]
+    s.shut = true ∧ s.c2b.out = [] ∧ s.c2b.inq = [1, 2, 3] ∧ s.c2b.srcClosed = false ∧ s.b2c.srcClosed = false ∧
+    relayEnabled s = false := by decide
+
+/-- **close propagation**: in every reachable state in which no error-free relay step is left to take, if either peer
+    has closed then serve() has closed both connections; the same after any relay error or failed prefix write -/
+theorem C47_close_propagates (pc pb : Bytes) (sched : List Step) :
+    let s := reachWS pc pb sched
+    relayEnabled s = false →
+    (s.c2b.srcClosed = true ∨ s.b2c.srcClosed = true ∨ s.c2b.done = true ∨ s.b2c.done = true ∨ s.stage = 3) →
+    s.shut = true := by
+  intro s hq hc
+  obtain ⟨_, _, h3⟩ := run_inv sched _ (inv_init pc pb)
+  change StageInv s at h3
+  have hf : FlagInv s := run_flag sched _ (flag_init pc pb 0)
+  rcases hc with h | h | h | h | h
+  · exact rest_closed s h3.2.2 hf hq (Or.inl h)
+  · exact rest_closed s h3.2.2 hf hq (Or.inr h)
+  all_goals
+    cases hs : s.shut
+    · exfalso
+      obtain ⟨hst, _, _, _, _, hd1, hd2⟩ := rest_open s h3.2.2 hf hq hs
+      simp_all
+    · rfl
 
 /-- after serve() closed the connections nothing is relayed any more -/
 theorem C47_shut_is_final (s : St) (hs : s.shut = true) (toB : Bool) (n : Nat) :
-    step s (.copy toB n) = none ∧ step s .flush = none := by
-  cases toB <;> simp [step, hs]
+    step s (.rd toB n) = none ∧ step s (.wr toB) = none ∧ step s .flushOk = none := by
+  cases toB <;> simp [step, St.live, hs]
 
-/-! non-vacuity: a schedule with data pipelined behind the upgrade, interleaved chunked copies and a client close -/
+/-! non-vacuity: pipelined data, chunked reads, a partial write failure, a read error with data, a client close -/
 example :
-    let s := runSched (St.init [1, 2] [9] false)
-      [.send true [3, 4, 5], .flush, .send false [8, 7], .copy true 2, .copy false 1, .close true, .copy true 1,
-       .copy false 1, .eof true, .shutdown]
+    let s := reachWS [1, 2] [9]
+      [.send true [3, 4, 5], .flushOk, .flushOk, .send false [8, 7], .rd true 2, .wr true, .rd false 1, .wr false,
+       .close true, .rd true 1, .wr true, .rd false 1, .wr false, .eof true, .shutdown]
     s.c2b.out = [1, 2, 3, 4, 5] ∧ s.b2c.out = [9, 8, 7] ∧ s.shut = true ∧ relayEnabled s = false := by decide
-
-example : relayEnabled (runSched (St.init [1] [] false) [.send true [2]]) = true := by decide
+example :
+    let s := reachWS [] [] [.flushOk, .flushOk, .send true [1, 2, 3, 4], .rd true 3, .wrFail true 2, .shutdown]
+    s.c2b.out = [1, 2] ∧ s.c2b.held = [3] ∧ s.c2b.inq = [4] ∧ s.shut = true := by decide
+example :
+    let s := reachWS [] [] [.flushOk, .flushOk, .send true [1, 2], .rdE true 2, .wr true]
+    s.c2b.out = [1, 2] ∧ s.c2b.done = true := by decide
+example :
+    let s := reachWS [1, 2, 3] [] [.flushFail 1, .shutdown]
+    s.c2b.out = [1] ∧ s.stage = 3 ∧ s.shut = true := by decide
 
 end BfeVerif.C47
